@@ -97,6 +97,7 @@ type FuncContract struct {
 	EffectFree  bool
 	OwnPackage  bool // the contract is applied at call sites of its own package only; other packages keep their own declaration
 	PanicFree   bool // the function is claimed never to panic: any refuted run-time-failure obligation in it is reported, whatever the shape of its obligation set
+	DetachedGo      bool // goroutines the function starts are assumed to communicate with it by signalling only (channels, cancel functions): no taint at `go`, the heap is still havoced there
 	AssumeCalleePre bool // thin contract: the preconditions of every contracted callee are assumed, not checked, inside this function (listed as an assumption)
 	AssumePre   bool // in a local declaration of a function under contract elsewhere: that contract's preconditions are assumed, not checked, at calls from this package
 	LemmaParams []QVar
@@ -145,7 +146,7 @@ type ContractFile struct {
 var clauseKeywords = map[string]bool{
 	"func": true, "lemma": true, "extern": true, "opaque": true, "pure": true, "props": true, "arith": true,
 	"requires": true, "ensures": true, "modifies": true, "loop": true, "inline": true, "trusted": true,
-	"nosafe": true, "effectfree": true, "uses": true, "ghost": true, "assigns": true, "logged": true, "callsite": true, "where": true, "global": true, "recvfrom": true, "sets": true, "coretypes": true, "appends": true, "splitreturns": true, "purecallback": true, "bounded": true, "reveal": true, "onlyprop": true, "assumepre": true, "assumecalleepre": true, "panicfree": true, "ownpackage": true,
+	"nosafe": true, "effectfree": true, "uses": true, "ghost": true, "assigns": true, "logged": true, "callsite": true, "where": true, "global": true, "recvfrom": true, "sets": true, "coretypes": true, "appends": true, "splitreturns": true, "purecallback": true, "bounded": true, "reveal": true, "onlyprop": true, "assumepre": true, "assumecalleepre": true, "detachedgo": true, "panicfree": true, "ownpackage": true,
 }
 
 var labelRe = regexp.MustCompile(`^([A-Za-z_][A-Za-z0-9_]*)\s*:\s*([^:=].*)$`)
@@ -544,6 +545,8 @@ func ParseContractFile(path, pkgPath string) (*ContractFile, error) {
 				cur.AssumePre = true
 			case "assumecalleepre":
 				cur.AssumeCalleePre = true
+			case "detachedgo":
+				cur.DetachedGo = true
 			case "panicfree":
 				cur.PanicFree = true
 			case "ownpackage":
